@@ -2,6 +2,7 @@ mod cbrun;
 mod config;
 mod csvrun;
 mod dec;
+mod drift;
 mod fifo;
 mod gen;
 mod mcp;
@@ -73,6 +74,15 @@ fn main() {
             let bindir = std::path::PathBuf::from(args.req("bindir"));
             let work = std::path::PathBuf::from(args.req("work"));
             csvrun::run(&mut run, &bindir, &work, args.num("seed", 1), args.num("n", 20), args.get("tier") != Some("thorough"));
+            run.finish();
+        }
+        "drift" => {
+            let table = args.req("table").to_string();
+            if let Some(e) = args.get("export") {
+                drift::export(&drift::load(&table), e);
+            }
+            let mut run = Runner::new(&args);
+            drift::run(&mut run, &table, args.num("seed", 1), args.get("tier") == Some("thorough"));
             run.finish();
         }
         "config" => {
